@@ -155,7 +155,7 @@ void harness(void) {
 #elif T == 9	/* http_hdr_val_remove */
 	uint8_t *name = v_buf(IN.name, NLEN);
 	uint8_t *lc = (uint8_t *)v_alloc(LEN);
-	size_t ns = 777, c;
+	size_t ns = LEN, c;	/* in/out style: untouched when the arguments are refused (as in http_hdr_vals_remove) */
 	mem_to_lower(lc, m, LEN);
 #ifdef KF_HTTP_HDR_REMOVE_END
 	/* blocked: the searched name occurs at the very end of the block (the byte behind it is tested for ':') */
@@ -191,6 +191,9 @@ void harness(void) {
 #elif T == 12	/* http_data_decode_chunked */
 	uint8_t *dr = NULL;
 	size_t ds = 777;
+#ifdef CHUNK16F	/* shape: the first chunk-size line starts with 15 'f' digits (sizes near 2^64: pointer wrap) */
+	for (size_t i = 0; i < 15 && i < LEN; i++) V_ASSUME(m[i] == 'f' || m[i] == 'F');
+#endif
 	r = http_data_decode_chunked(m, LEN, &dr, &ds);
 	if (r == 0) {
 		V_ASSERT(ds <= LEN, "decoded size not larger than the input");
